@@ -8,6 +8,20 @@ ALL = [f"C{i:02d}" for i in range(1, 21)]
 
 # id -> (technique, level text, level note, design ref)
 CHECKS = {
+    "C02": (
+        "exhaustive enumeration of all unit names, all same-dimension name pairs and the complete "
+        "compound-expression grammar up to 3 factors, against an independently typed definition table and "
+        "an independent expression evaluator",
+        "All 3872 resolvable names and all 145x22 symbol-prefix strings are resolved by unyt and by a hand-typed "
+        "definition table with per-class tolerances; every ordered pair of names sharing a dimension is converted "
+        "and compared with the scale ratio / affine map; every expression tree of the stated grammar is evaluated "
+        "three ways (string parser, reference parser, Unit operator algebra). A wrong digit in any row, a wrong "
+        "prefix value or a mistake in how powers/products accumulate scale is necessarily visited.",
+        "Trusted base: /verif/mc/ref/deftable.py (hand-typed legal/SI/IAU/CODATA definitions with class "
+        "tolerances) and the 120-line reference parser; alias->canonical map taken from unyt (C14 checks it). "
+        "'Random 5-factor expressions' is replaced by the complete language up to 3 factors.",
+        "DESIGN.md section 6 C02",
+    ),
     "C12": (
         "explicit-state BFS over registry-edit/cache-seeding histories on the real code, "
         "warm-vs-cold-vs-reference differential in every state",
